@@ -38,17 +38,25 @@ _KEY = None
 _CERTS = {}
 
 
-def make_cert(cns, eku):
-    """DER certificate with the given list of common names; eku in {'absent', 'server', 'client', 'both'}."""
+def make_cert(cns, eku, layout=None):
+    """DER certificate with the given common names; eku in {'absent', 'server', 'client', 'both'}.
+    layout (optional): the subject as a list of RDNs, each a list of 'CN:<value>' / 'O:<value>' / 'OU:<value>' - lets the
+    same number of common names be encoded in every way X.509 allows (several CNs in ONE multi-valued RDN, a CN sharing
+    its RDN with another attribute, the CN not in the first RDN).  Without layout every CN is an RDN of its own."""
     global _KEY
-    k = (tuple(cns), eku)
+    k = (tuple(cns), eku, repr(layout))
     if k in _CERTS:
         return _CERTS[k]
     if _KEY is None:
         _KEY = ec.generate_private_key(ec.SECP256R1(), default_backend())
-    attrs = [x509.NameAttribute(x509.oid.NameOID.COMMON_NAME, cn) for cn in cns]
-    attrs.append(x509.NameAttribute(x509.oid.NameOID.ORGANIZATION_NAME, 'verif'))
-    name = x509.Name(attrs)
+    N = x509.oid.NameOID
+    if layout is None:
+        layout = [['CN:' + cn] for cn in cns] + [['O:verif']]
+    kinds = {'CN': N.COMMON_NAME, 'O': N.ORGANIZATION_NAME, 'OU': N.ORGANIZATIONAL_UNIT_NAME}
+    rdns = [x509.RelativeDistinguishedName([x509.NameAttribute(kinds[a.split(':', 1)[0]], a.split(':', 1)[1]) for a in rdn])
+            for rdn in layout]
+    assert sorted(a.split(':', 1)[1] for rdn in layout for a in rdn if a.startswith('CN:')) == sorted(cns), 'layout and cns differ'
+    name = x509.Name(rdns)
     t = datetime.datetime(2020, 1, 1)
     b = (x509.CertificateBuilder().serial_number(1).issuer_name(name).subject_name(name)
          .not_valid_before(t).not_valid_after(t + datetime.timedelta(days=36500)).public_key(_KEY.public_key()))
@@ -269,7 +277,7 @@ GOOD_CERT = (('alice',), 'client')
 
 
 def default_spec(stream, sizes=None, cert=GOOD_CERT, tls=True, plugins=(), ts=1600000000):
-    """A connection script.  cert: None | (tuple of CNs, eku kind); plugins: list of dicts
+    """A connection script.  cert: None | (tuple of CNs, eku kind[, subject layout - see make_cert]); plugins: list of dicts
     {'name', 'enabled' (str|None), 'url' (str|None|int), 'user': ('unreachable',)|('status', c),
      'groups': ('unreachable',)|('status', c, body)}, body = {'groups': [...]} | {} | 'badjson'."""
     return {'stream': bytes(stream), 'sizes': list(sizes) if sizes is not None else ([len(stream)] if stream else []),
@@ -278,7 +286,7 @@ def default_spec(stream, sizes=None, cert=GOOD_CERT, tls=True, plugins=(), ts=16
 
 def run_spec(proxy, spec, dumps=True, settings_from=None):
     """Run one scripted connection against the real session; returns (obs, conn)."""
-    cert = make_cert(list(spec['cert'][0]), spec['cert'][1]) if spec['cert'] is not None else None
+    cert = make_cert(list(spec['cert'][0]), spec['cert'][1], spec['cert'][2] if len(spec['cert']) > 2 else None) if spec['cert'] is not None else None
     conn = FakeConn(spec['stream'], spec['sizes'], cert)
     settings = []
     nph = max([len(p['phases']) for p in spec['plugins'] if p.get('phases')] or [0])
@@ -322,7 +330,7 @@ def coq_cert(cert):
     cq = _cq()
     if cert is None:
         return 'None'
-    cns, eku = cert
+    cns, eku = cert[0], cert[1]
     k = {'absent': 'EkuAbsent', 'server': 'EkuNoClient', 'client': 'EkuClient', 'both': 'EkuClient'}[eku]
     return '(Some {| c_cns := %s; c_eku := %s |})' % (cq.lst(cns, cq.string), k)
 
